@@ -22,6 +22,10 @@ import (
 
 type queryPacket struct {
 	preparedStatement *PgPreparedStatement
+	// preparedText is the text of preparedStatement at the time the Execute was queued. The registry
+	// wipes PgPreparedStatement.text as soon as the statement name is used by another Parse, which can
+	// happen (pipelining, unnamed statement) while the response of this Execute is still pending.
+	preparedText      string
 	bindPacket        *BindPacket
 	executePacket     *ExecutePacket
 	simpleQueryPacket string
@@ -32,7 +36,7 @@ func newQueryPacket(query string) queryPacket {
 }
 
 func newExtendedQueryPacket(preparedStatement *PgPreparedStatement, bindPacket *BindPacket, executePacket *ExecutePacket) queryPacket {
-	return queryPacket{preparedStatement: preparedStatement, bindPacket: bindPacket, executePacket: executePacket}
+	return queryPacket{preparedStatement: preparedStatement, preparedText: preparedStatement.QueryText(), bindPacket: bindPacket, executePacket: executePacket}
 }
 
 // String return SimpleQuery or Prepared with statement name for log purposes
@@ -46,6 +50,9 @@ func (queryPacket queryPacket) String() string {
 // GetSQLQuery returns SQL query. If packet is SimpleQuery then returns query, otherwise returns query from the Parse packet
 func (queryPacket queryPacket) GetSQLQuery() string {
 	if queryPacket.executePacket != nil {
+		if queryPacket.preparedText != "" {
+			return queryPacket.preparedText
+		}
 		return queryPacket.preparedStatement.QueryText()
 	}
 	return queryPacket.simpleQueryPacket
